@@ -38,7 +38,7 @@ static int cv_is_elem(var x) { return HDR(x)->type == ELEM && MAGIC_OK(x); }
 static int64_t cv_new_token(void) { cv_issued++; return 1; }
 var assign(var dst, var src) {
   __CPROVER_assert(cv_is_elem(dst), "[C19] the destination of an element assignment carries the element type in its header");
-  __CPROVER_assert(HDR(src)->type == ELEM, "harness: element assignment from an element");
+  CV_LIMIT(HDR(src)->type == ELEM, "harness: element assignment from an element");
   if (ET(dst) == 0) { ET(dst) = cv_new_token(); }
   else { __CPROVER_assert(ET(dst) == 1, "[C05] assignment onto non-zero memory only if it holds a live element"); }
   EV(dst) = EV(src);
@@ -74,12 +74,12 @@ var type_of(var self) { return HDR(self)->type ? HDR(self)->type : Type; }
 static int cv_is_elem(var x) { return HDR(x)->type == ELEM && MAGIC_OK(x); }
 static int64_t cv_new_token(void) {
   int64_t t = cv_next_tok++;
-  __CPROVER_assert(t < CV_NTOK, "harness: token pool large enough");
+  CV_LIMIT(t < CV_NTOK, "harness: token pool large enough");
   cv_live[t] = 1; cv_issued++; return t;
 }
 var assign(var dst, var src) {
   __CPROVER_assert(cv_is_elem(dst), "[C19] the destination of an element assignment carries the element type in its header");
-  __CPROVER_assert(HDR(src)->type == ELEM, "harness: element assignment from an element");
+  CV_LIMIT(HDR(src)->type == ELEM, "harness: element assignment from an element");
   if (ET(dst) == 0) { ET(dst) = cv_new_token(); }
   else { __CPROVER_assert(ET(dst) > 0 && ET(dst) < CV_NTOK && cv_live[ET(dst)], "[C05] assignment onto non-zero memory only if it holds a live element"); }
   EV(dst) = EV(src);
@@ -107,7 +107,7 @@ static uint64_t cv_hash_of(int64_t v) { return __CPROVER_uninterpreted_cvH(v) & 
 static uint64_t cv_hash_of(int64_t v) { return __CPROVER_uninterpreted_cvH(v); }
 #endif
 uint64_t hash(var x) { return cv_hash_of(EV(x)); }
-size_t size(var type) { __CPROVER_assert(type == ELEM, "harness: size of the element type"); return sizeof(struct Elem); }
+size_t size(var type) { CV_LIMIT(type == ELEM, "harness: size of the element type"); return sizeof(struct Elem); }
 int64_t c_int(var self) { return ((struct Int*)self)->val; }
 void swap(var a, var b) { struct Elem t = *(struct Elem*)a; *(struct Elem*)a = *(struct Elem*)b; *(struct Elem*)b = t; }
 var cast(var self, var type) {
